@@ -78,7 +78,7 @@ def build_driver():
 
 
 def _run_extraction(profile, out_dir, repo=REPO, target=None):
-    target = target or os.path.join(CACHE, "target")
+    target = target or os.environ.get("WCX_TARGET") or os.path.join(CACHE, "target")
     os.makedirs(target, exist_ok=True)
     sub = "release" if profile == "release" else "debug"
     for pat in (".fingerprint/weechess*", "build/weechess*", "incremental/weechess*", "incremental/build_script_build*"):
@@ -193,7 +193,8 @@ def extract_scratch(repo_dir, profile="dev"):
     out = os.path.join(repo_dir, "_facts")
     shutil.rmtree(out, ignore_errors=True)
     os.makedirs(out)
-    lock = open(os.path.join(CACHE, "extract.lock"), "w")
+    tgt = os.environ.get("WCX_TARGET")
+    lock = open((tgt + ".lock") if tgt else os.path.join(CACHE, "extract.lock"), "w")
     fcntl.flock(lock, fcntl.LOCK_EX)
     try:
         _run_extraction(profile, out, repo_dir)
